@@ -179,7 +179,7 @@ def groups(tier):
                             continue
                         g.append(dict(name='1D/%dx%d/scan=%s/units=%s/norm=%s' % (n, m, scan, units, norm), harness=h_1d,
                                       params=dict(n=n, m=m, scan=scan, units=units, norm=norm), max_paths=3000))
-    shapes2 = [(1, 1, 1), (2, 2, 1), (2, 1, 2), (2, 2, 2), (3, 1, 2)] + ([(3, 2, 2), (2, 2, 3), (3, 2, 3)] if th else [])
+    shapes2 = [(1, 1, 1), (2, 2, 1), (2, 1, 2), (2, 2, 2), (3, 1, 2)] + ([(2, 2, 3)] if th else [])       # (3,2,2): 30 min, (3,2,3): > 1 h per group - outside the thorough tier
     for (n, m1, m2) in shapes2:
         for units in (None, 'eV'):
             g.append(dict(name='2D/%dx%dx%d/units=%s' % (n, m1, m2, units), harness=h_2d,
